@@ -37,6 +37,11 @@ P  posterior: mean  m* + k*^T A^-1 (y-m);  variance  max(k** - k*^T A^-1 k*, flo
               joint samples through a scripted random_state whose normal(size) returns unit vectors
               (plus one all-zero draw giving the mean): F F^T - S* must be s_j*I, and s_j = 0 unless S*
               is numerically singular (the fixed 1e-5 the code adds is candidate finding C08-F1).
+M  mcmc:      GPRegressionMCMC: for every retained sample i, state i must report sample i's parameters
+              (kernel / mean get_params, noise_variance) and its kernel object, Cholesky factor, predict,
+              nlml, sample_marginals (scripted z), sample_joint and the model's predict()[i] are checked
+              by stages K, J, P with the reference computed from sample i; after fit and after
+              recompute_states (new data, fantasy blocks of n_samples*nf columns, assigned samples).
 I  incremental: update() / sample_and_update() / expand_fantasies() chains; dense check of intermediate
               and final states; comparison with the state recomputed from scratch (tolerance widened by
               the first-order effect of the kernel round-off band and of the documented regulariser
@@ -66,7 +71,10 @@ import numpy as np
 ID = "C08"
 LEVEL = "exploration"
 RULE = (
-    "case = seeded (kernel kind in {matern, gpr, jitter-regime, warped, product, range, expdecay, composed = "
+    "case = seeded (kernel kind in {matern, gpr, jitter-regime, warped, product, range, expdecay, mcmc = "
+    "GPRegressionMCMC with a small MCMCConfig (2..12 samples, burn-in, thinning; 1..6 retained states), fit then "
+    "recompute_states on new data / fantasy matrices, optionally with in-box hyperparameter samples assigned by "
+    "the test, every state checked against the dense definition with its OWN sample; composed = "
     "[WarpedKernel of] ProductKernelFunction(stationary, non-stationary) / WarpedKernel(non-stationary) with "
     "exponential-decay and freeze-thaw resource kernels, warping on the non-stationary factor's coordinates}; n 1..40, "
     "encoded dimension d 1..6 and (a quarter of the cases) 7..14 with up to three one-hot blocks, ARD with "
@@ -109,6 +117,11 @@ ASSUMPTIONS = [
     "regulariser band, diagonal_depends_on_X() == False only if diagonal() and the Gram diagonal do not vary), "
     "then the posterior / incremental clauses run on their Gram matrices; a case whose diagonal() disagrees "
     "with the Gram diagonal stops after stage K (the prior variance is ambiguous)",
+    "mcmc: the layout of a hyperparameter sample vector is taken from likelihood.param_encoding_pairs() (names "
+    "noise_variance, covariance_scale, inverse_bandwidths, mean_value); a state's reference is computed from "
+    "model.samples[i], and state.kernel / state.mean get_params() and state.noise_variance must report exactly "
+    "that sample; a failure of the slice sampler in fit() is inconclusive (fitting is not constrained by C08); "
+    "hostile parameter regions are reached by assigning model.samples (public attribute) before recompute_states",
     "FabolasKernelFunction factors are generated only with INCLUDE_FABOLAS (its forward() ignores u2 and u3: "
     "candidate finding C08-F2)",
     "exponential-decay resource kernel and its mean function: values are taken from the objects (self-"
@@ -173,6 +186,8 @@ def _imports():
     from syne_tune.optimizer.schedulers.searchers.bayesopt.gpautograd.gp_regression import (
         GaussianProcessRegression,
     )
+    from syne_tune.optimizer.schedulers.searchers.bayesopt.gpautograd.gpr_mcmc import GPRegressionMCMC
+    from syne_tune.optimizer.schedulers.searchers.bayesopt.gpautograd.constants import MCMCConfig
     import scipy.linalg as spl
 
     _G.update(locals())
@@ -181,7 +196,7 @@ def _imports():
 
 # ----------------------------------------------------------------------------------- sizes / floors
 KINDS = ["matern", "jitter", "gpr", "matern", "jitter", "warped", "matern", "jitter", "product", "gpr",
-         "jitter", "range", "matern", "jitter", "expdecay", "warped", "composed", "composed", "composed"]
+         "jitter", "range", "matern", "jitter", "expdecay", "warped", "composed", "composed", "composed", "mcmc", "mcmc"]
 
 
 def _comp_classes():
@@ -189,7 +204,7 @@ def _comp_classes():
 
 
 def cases(tier, seed):
-    n = 1200 if tier == "quick" else 20000
+    n = 1400 if tier == "quick" else 20000
     out = []
     classes = _comp_classes()
     for i in range(n):
@@ -202,20 +217,23 @@ def cases(tier, seed):
 
 def floors(tier):
     # measured on the unchanged tree, seeds 0..4 (quick: minimum over the seeds, floors at <= 75 % of it;
-    # the six cells DESIGN names are kept at >= 100). thorough has 16.7x the cases: x13.
-    f = 1 if tier == "quick" else 13
+    # the six cells DESIGN names are kept at >= 100). thorough has 14.3x the cases: x11.
+    f = 1 if tier == "quick" else 11
     q = {
         "cell:ard": 100, "cell:cov_scale_ne_1": 100, "cell:fantasies_gt1": 100, "cell:ntest_gt1": 100,
         "cell:jitter_added": 100, "cell:chain_ge5": 100,
         "cell:jitter_added_noise_inside_box": 5, "cell:tuple_scale": 100, "cell:zero_mean": 100,
         "cell:scalar_mean": 100, "cell:exact_duplicates": 100, "cell:near_duplicates": 100,
         "cell:expand_fantasies": 50, "cell:n_eq_1": 25,
-        "cell:kind:gpr": 100, "cell:kind:warped": 100, "cell:kind:product": 50, "cell:kind:range": 50,
+        "cell:kind:gpr": 100, "cell:kind:warped": 100, "cell:kind:product": 45, "cell:kind:range": 50,
         "cell:kind:expdecay": 50,
         "cell:d_ge_7": 150, "cell:ard_d_ge_11": 50, "cell:onehot_blocks": 80,
+        "cell:kind:mcmc": 100, "mcmc:states_checked": 350, "cell:mcmc_ge2_distinct_samples": 70,
+        "decided:mcmc_state_params": 350, "mcmc:recompute_states": 60, "mcmc:recompute_fantasies": 20,
+        "mcmc:assigned_samples": 30, "decided:sample_marginals": 200, "decided:mcmc_model_predict": 100,
         "cell:kind:composed": 120, "decided:diagonal_flag": 1000, "diagonal_flag:True": 150,
         "diagonal_flag:False": 600, "roundtrip:composed": 50,
-        "decided:params_roundtrip": 400, "roundtrip:gpr": 40,
+        "decided:params_roundtrip": 400, "roundtrip:gpr": 35,
         "decided:kernel_textbook": 2000, "decided:kernel_pairwise": 9000, "decided:warp_transform": 100,
         "decided:jitter_structure": 3500, "decided:jitter_sequence": 100, "decided:jitter_minimal": 100,
         "decided:predict_mean": 1500, "decided:predict_variance": 1500, "decided:variance_bounds": 1700,
@@ -1345,11 +1363,249 @@ def check_mp(o, tag, mu, var, nl, dense, Kxs_c, kss_c, mstar, m, floor):
 
 
 # ----------------------------------------------------------------------------------- the case
+# ----------------------------------------------------------------------------------- MCMC surrogate
+def check_sample_marginals(o, tag, state, Xt, dense, Kxs_c, kss_c, mstar, m, floor, rng):
+    """Scripted draws z: sample_marginals must return mean + z*std of the state's own posterior."""
+    nt = Xt.shape[0]
+    ns = int(rng.integers(1, 4))
+    zs = [rng.normal(size=(nt, m, 1)) for _ in range(ns)]
+    rs = ScriptedNormal([z.copy() for z in zs])
+    S = np.asarray(_call(o, "sample_marginals", state.sample_marginals, Xt, num_samples=ns, random_state=rs,
+                         _trusted=dense.trust), dtype=np.float64)
+    if rs.bad or rs.arrays:
+        o.inconclusive("scripted_random_state_not_consumed_as_expected")
+        return
+    want = (nt, ns) if m == 1 else (nt, m, ns)
+    if S.shape != want:
+        o.violate("sample_marginals", f"sample_marginals:bad_output_shape:{tag}", {"shape": list(S.shape), "want": list(want)})
+        return
+    if not dense.trust:
+        return
+    S = S.reshape(nt, m, ns)
+    rm, rv, q, _ = dense.predict(Kxs_c, kss_c, mstar)
+    rm64, rv64, q64 = np.float64(rm), np.float64(rv), np.float64(q)
+    std = np.sqrt(np.maximum(rv64, floor))
+    tol_m = dense.rel * _sqq(q, dense) + TOL["Ca"] * EPS * (np.abs(mstar).reshape(-1, 1) + np.abs(rm64))
+    tol_v = dense.rel * q64 + TOL["Ca"] * EPS * np.abs(kss_c)
+    o.count("decided:sample_marginals")
+    for k_, z in enumerate(zs):
+        exp_s = rm64 + z[:, :, 0] * std.reshape(-1, 1)
+        tol = tol_m + np.abs(z[:, :, 0]) * (tol_v / (2 * std) + 4 * EPS * std).reshape(-1, 1)
+        if _exceeds(S[:, :, k_] - exp_s, tol):
+            o.violate("sample_marginals", f"sample_marginals:differs_from_mean_plus_z_std:{tag}",
+                      dict(_wit(S[:, :, k_] - exp_s, tol), cond=dense.cond, sample=k_))
+            return
+
+
+def _parse_sample(model, vec):
+    """Split a hyperparameter vector of the MCMC model (model.samples[i]) by the likelihood's public
+    param_encoding_pairs(): noise_variance, covariance_scale, inverse_bandwidths, mean_value."""
+    out, pos = {}, 0
+    vec = np.asarray(vec, dtype=np.float64).reshape(-1)
+    for param, enc in model.likelihood.param_encoding_pairs():
+        dim = enc.dimension
+        name = param.name
+        for key in ("noise_variance", "covariance_scale", "inverse_bandwidths", "mean_value"):
+            if key in name:
+                out[key] = vec[pos:pos + dim].copy()
+                break
+        else:
+            out.setdefault("other", []).append((name, vec[pos:pos + dim].copy()))
+        pos += dim
+    out["_len_ok"] = pos == vec.size
+    return out
+
+
+def _mcmc_check_states(o, model, X, Xt, Ycols, d, ard, has_cs, rng, tag, floor, counted):
+    """Every posterior state against the dense definition evaluated with THAT state's own sample.
+    Ycols(i) gives the target columns state i was built from."""
+    samples = [np.asarray(v, dtype=np.float64).reshape(-1) for v in model.samples]
+    states = model.states
+    if states is None or len(states) != len(samples):
+        o.violate("mcmc", f"mcmc:number_of_states_differs_from_number_of_samples:{tag}",
+                  {"states": None if states is None else len(states), "samples": len(samples)})
+        raise Raised("mcmc")
+    preds = _call(o, "GPRegressionMCMC.predict", model.predict, Xt)
+    if len(preds) != len(states):
+        o.violate("mcmc", f"mcmc:predict_returns_wrong_number_of_states:{tag}", {"got": len(preds), "want": len(states)})
+        raise Raised("mcmc")
+    parsed = [_parse_sample(model, v) for v in samples]
+
+    def reported(state):
+        g = state.kernel.get_params()
+        ib = np.array([_f(g[f"inv_bw{i}"]) for i in range(d)]) if (ard and d > 1) else np.array([_f(g["inv_bw"])])
+        c = _f(g["covariance_scale"]) if has_cs else 1.0
+        mv = _f(state.mean.get_params()["mean_value"])
+        nv = _f(state.noise_variance)
+        return np.concatenate([[nv], [c] if has_cs else [], ib, [mv]])
+
+    def as_vec(ps):
+        return np.concatenate([ps["noise_variance"], ps["covariance_scale"] if has_cs else [], ps["inverse_bandwidths"],
+                               ps["mean_value"]])
+
+    def close(a, b):
+        return a.shape == b.shape and bool(np.all(np.abs(a - b) <= 1e-12 * np.abs(b) + 1e-300))
+
+    for i, (state, ps) in enumerate(zip(states, parsed)):
+        if not ps["_len_ok"] or any(k_ not in ps for k_ in ("noise_variance", "inverse_bandwidths", "mean_value")):
+            o.inconclusive("mcmc_sample_vector_layout_not_understood")
+            return
+        own = as_vec(ps)
+        rep = reported(state)
+        o.count("decided:mcmc_state_params")
+        if not close(rep, own):
+            # kernel and mean blocks are shared objects, the noise variance is a copy: compare without it
+            other = [j for j, pj in enumerate(parsed) if j != i and close(rep[1:], as_vec(pj)[1:])]
+            mech = ("mcmc:state_reports_kernel_and_mean_parameters_of_another_sample" if other
+                    else "mcmc:state_parameters_differ_from_its_sample")
+            o.violate("mcmc", mech, {"state": i, "n_states": len(states), "reported": rep.tolist(), "own_sample": own.tolist(),
+                                     "matches_sample": other[:1], "phase": tag})
+        ib = ps["inverse_bandwidths"] if ps["inverse_bandwidths"].size == d else np.repeat(ps["inverse_bandwidths"], d)
+        c = float(ps["covariance_scale"][0]) if has_cs else 1.0
+        noise, mval = float(ps["noise_variance"][0]), float(ps["mean_value"][0])
+        Ms = Model()
+        Ms.kind, Ms.d, Ms.kernel, Ms.kscale, Ms.jf = "mcmc", d, state.kernel, c, 1.0
+        Ms.own = (lambda ib_, c_: (lambda X1, X2, off: dg.matern52(X1, X2, ib_, c_, off)))(ib, c)
+        Ms.rfparts = [(slice(0, d), ib)]
+        Ms.pars = {"ib": ib.tolist(), "c": c, "state": i, "phase": tag}
+        KS = stage_kernel(o, Ms, X, Xt, rng, False)
+        o.count("mcmc:states_checked")
+        if not KS["diag_ok"]:
+            continue
+        D, info = stage_chol(o, f"mcmc_{tag}", state.chol_fact, KS["Kxx"], noise, True)
+        if D is None:
+            continue
+        Y = Ycols(i)
+        m = Y.shape[1]
+        dense = Dense(KS["Kxx"], D, Y - mval)
+        if not dense.ok:
+            o.inconclusive("reference_cholesky_failed")
+            continue
+        if not dense.trust:
+            o.inconclusive("cond_too_large")
+        mstar = np.ones(Xt.shape[0]) * mval
+        mu, var = _call(o, "predict", state.predict, Xt)
+        out = check_predict(o, f"mcmc_{tag}", mu, var, dense, KS["Kxt"], KS["dT"], mstar, m, floor,
+                            extra={"state": i, "n_states": len(states)})
+        if out is not None:
+            counted[0] = True
+        if m == 1:
+            check_nlml(o, f"mcmc_{tag}", _call(o, "neg_log_likelihood", state.neg_log_likelihood), dense)
+        check_sample_marginals(o, f"mcmc_{tag}", state, Xt, dense, KS["Kxt"], KS["dT"], mstar, m, floor, rng)
+        if rng.random() < 0.4:
+            check_joint(o, f"mcmc_{tag}", state, Xt, dense, KS["Kxt"], KS["Ktt"], mstar, m)
+        # the model's own predict (one entry per state, means flattened for a single column)
+        pm, pv = preds[i]
+        pm = np.asarray(pm, dtype=np.float64)
+        o.count("decided:mcmc_model_predict")
+        if pm.shape != ((Xt.shape[0],) if m == 1 else (Xt.shape[0], m)):
+            o.violate("predict", f"mcmc.predict:bad_output_shape:{tag}", {"shape": list(pm.shape), "columns": m})
+        else:
+            check_predict(o, f"mcmc_model_{tag}", pm.reshape(Xt.shape[0], m), pv, dense, KS["Kxt"], KS["dT"], mstar, m, floor,
+                          extra={"state": i, "n_states": len(states)})
+
+
+def _run_mcmc(spec, o, sig):
+    """GPRegressionMCMC with a small MCMCConfig: fit (slice sampling), then recompute_states on new data /
+    fantasy matrices, optionally with hyperparameter samples assigned by the test (model.samples)."""
+    G = _imports()
+    rng = np.random.default_rng(int(spec["seed"]))
+    FLOOR = G["constants"].MIN_POSTERIOR_VARIANCE
+    d = int(spec.get("d", rng.integers(1, 7)))
+    ard = bool(spec.get("ard", rng.random() < 0.6)) and d > 1
+    has_cs = bool(spec.get("has_cs", rng.random() < 0.85))
+    M = Model()
+    M.kind, M.d, M.mean_kind, M.ysc = "mcmc", d, "zero", float(10 ** rng.uniform(-0.5, 0.5))
+    M.mean_ref = lambda X_: np.zeros(X_.shape[0])
+    sp = dict(spec)
+    sp.setdefault("n", int(rng.integers(2, 21)))
+    sp["m"] = 1
+    X, Xt, Y, n, nt, _, n_exact, n_near = gen_inputs(rng, sp, M)
+    Y = Y + rng.normal() * M.ysc * rng.choice([0.0, 1.0])
+    n_samples = int(spec.get("n_samples", rng.integers(2, 13)))
+    n_burnin = int(spec.get("n_burnin", rng.integers(0, n_samples)))
+    n_thinning = int(spec.get("n_thinning", rng.integers(1, 4)))
+    cfg = G["MCMCConfig"](n_samples=n_samples, n_burnin=n_burnin, n_thinning=n_thinning)
+
+    def build_kernel():
+        return G["Matern52"](dimension=d, ARD=ard, has_covariance_scale=has_cs)
+
+    model = _call(o, "GPRegressionMCMC", G["GPRegressionMCMC"], build_kernel=build_kernel, mcmc_config=cfg,
+                  random_seed=int(rng.integers(0, 2 ** 31 - 1)))
+    tg = Y[:, 0].copy() if rng.random() < 0.5 else Y.copy()
+    # fitting (slice sampling) is not what the property constrains: a sampler failure is inconclusive
+    _call(o, "GPRegressionMCMC.fit", model.fit, {"features": X.copy(), "targets": tg}, _trusted=False)
+    o.ev("mcmc", n, d, n_samples, n_burnin, n_thinning, len(model.samples))
+    counted = [False]
+    phases = ["fit"]
+    if len(model.samples) == 0:
+        o.inconclusive("mcmc_no_sample_retained")
+        return
+    _mcmc_check_states(o, model, X, Xt, lambda i: Y, d, ard, has_cs, rng, "fit", FLOOR, counted)
+    distinct = len({tuple(np.asarray(v).reshape(-1).tolist()) for v in model.samples})
+    # ---- hyperparameter samples assigned by the test: anywhere inside the box constraints
+    if bool(spec.get("assign", rng.random() < 0.45)):
+        k_ = min(int(rng.integers(2, 7)), n_samples)  # never more states than mcmc_config.n_samples
+        vecs = []
+        for _ in range(k_):
+            v = [_logu(rng, 1e-9, 1e-2 if rng.random() < 0.5 else 1e6, corner=0.06)]
+            if has_cs:
+                v.append(_logu(rng, 1e-3, 1e3))
+            v += [_logu(rng, 1e-4, 100.0) for _ in range(d if ard else 1)]
+            v.append(float(rng.normal() * M.ysc))
+            vecs.append(np.array(v))
+        if rng.random() < 0.3:
+            vecs[-1] = vecs[0].copy()  # a repeated sample is legal
+        model.samples = vecs
+        distinct = max(distinct, len({tuple(v.tolist()) for v in vecs}))
+        o.count("mcmc:assigned_samples")
+        phases.append("assigned")
+    # ---- recompute_states: new data, or a fantasy matrix (n_samples * nf columns, state i gets block i)
+    if bool(spec.get("recompute", rng.random() < 0.75)) or "assigned" in phases:
+        n2 = int(rng.integers(1, n + 1))
+        X2, Xt2, Y2, n2, _, _, _, _ = gen_inputs(rng, dict(sp, n=n2, nt=nt), M)
+        Xn = np.concatenate([X, X2], axis=0) if rng.random() < 0.6 else X2
+        yn = (np.concatenate([Y, Y2], axis=0) if Xn.shape[0] == n + n2 else Y2)
+        nf = 0
+        if rng.random() < 0.4:
+            nf = int(rng.integers(1, 3))
+            Yn = np.tile(yn, (1, n_samples * nf)) + rng.normal(size=(yn.shape[0], n_samples * nf)) * 0.3 * M.ysc
+            if n_samples * nf == 1:
+                nf = 0
+        if nf == 0:
+            Yn = yn
+            cols = lambda i: Yn  # noqa: E731
+        else:
+            cols = (lambda nf_: (lambda i: Yn[:, i * nf_:(i + 1) * nf_]))(nf)
+            o.count("mcmc:recompute_fantasies")
+        _call(o, "GPRegressionMCMC.recompute_states", model.recompute_states, {"features": Xn.copy(), "targets": Yn.copy()})
+        o.count("mcmc:recompute_states")
+        phases.append("recompute" + (f"_nf{nf}" if nf else ""))
+        _mcmc_check_states(o, model, Xn, Xt, cols, d, ard, has_cs, rng, "recompute", FLOOR, counted)
+    if counted[0]:
+        o.count("cell:kind:mcmc")
+        if distinct >= 2:
+            o.count("cell:mcmc_ge2_distinct_samples")
+        if ard:
+            o.count("cell:ard")
+        if nt > 1:
+            o.count("cell:ntest_gt1")
+    sig.update(n=n, d=d, nt=nt, ard=ard, has_cs=has_cs, cfg=[n_samples, n_burnin, n_thinning],
+               retained=len(model.samples), phases=phases)
+    sig["nontrivial"] = n >= 2 and len(model.samples) >= 1
+    o.sample = {"kind": "mcmc", "n": n, "d": d, "n_test": nt, "ard": ard, "mcmc_config": [n_samples, n_burnin, n_thinning],
+                "states": len(model.samples), "distinct_samples": distinct, "phases": phases,
+                "sample0": np.asarray(model.samples[0]).reshape(-1).tolist()}
+
+
 def run_case(spec):
     o = Obs()
     sig = {"kind": spec.get("kind")}
     try:
-        _run(spec, o, sig)
+        if spec.get("kind") == "mcmc":
+            _run_mcmc(spec, o, sig)
+        else:
+            _run(spec, o, sig)
     except Raised:
         pass
     nontrivial = bool(sig.get("nontrivial")) and any(
